@@ -33,7 +33,6 @@ typedef uint32_t src_t;
 #define IN_UNIT() vp_in_u32()
 #endif
 
-#define LOCAL_LEN(sz) ((VP_SSO * (sz)) > VP_SSO_SIZE ? VP_SSO_SIZE / (sz) : VP_SSO)
 #if DST == U8 || DST == L1
 typedef uint8_t dst_t; typedef T_vp_dtor_c8_a0 dbuf_t;
 #define DTOR vp_dtor_c8
